@@ -132,7 +132,7 @@ def run_sched_case(case: dict) -> dict:
         val_name = None
         for k, node in graph.items():
             d = sched.describe(node)
-            if d["kind"] == "chunk":
+            if d["kind"] in ("chunk", "blockwise"):
                 first = sched.ordered_deps(node)[0]
                 fn = graph[first]
                 if sched.describe(fn)["kind"] == "data":
@@ -158,6 +158,8 @@ def run_sched_case(case: dict) -> dict:
                 outlabels.append([t for t in gtok[p:p + int(c)] if t >= 0])
                 p += int(c)
         # provenance is only meaningful in code space when the labels are the codes; map tokens via identity
+        if val_name is None:
+            raise RuntimeError("could not locate the value array's blocks in the graph")
         gjson, order_keys = sched.export_graph(graph, val_name, outputs, blocklabels, outlabels)
         rec["ntasks"] = sum(1 for p in gjson["pre"] if not p)
         rec["trees"] = [dict(t, k=case.get("split_every") or 4) for t in tree_levels(graph)]
